@@ -1,0 +1,34 @@
+//go:build verif
+
+package l1infotreesync
+
+import (
+	"database/sql"
+
+	aggkitcommon "github.com/agglayer/aggkit/common"
+	"github.com/agglayer/aggkit/db"
+	"github.com/agglayer/aggkit/db/compatibility"
+	"github.com/agglayer/aggkit/l1infotreesync/migrations"
+	"github.com/agglayer/aggkit/log"
+	"github.com/agglayer/aggkit/sync"
+	"github.com/agglayer/aggkit/tree"
+)
+
+// VerifNewWithDB is VerifNew on a caller-supplied database handle (opened by the harness through
+// a fault-injecting database/sql driver on the same SQLite file).
+func VerifNewWithDB(dbPath string, database *sql.DB) (*L1InfoTreeSync, error) {
+	if err := migrations.RunMigrations(dbPath); err != nil {
+		return nil, err
+	}
+	p := &processor{
+		db:             database,
+		l1InfoTree:     tree.NewAppendOnlyTree(database, migrations.L1InfoTreePrefix),
+		rollupExitTree: tree.NewUpdatableTree(database, migrations.RollupExitTreePrefix),
+		log:            log.WithFields("processor", "l1infotreesync"),
+		CompatibilityDataStorager: compatibility.NewKeyValueToCompatibilityStorage[sync.RuntimeData](
+			db.NewKeyValueStorage(database),
+			aggkitcommon.L1INFOTREESYNC,
+		),
+	}
+	return &L1InfoTreeSync{processor: p}, nil
+}
